@@ -735,7 +735,7 @@ def run(ctx):
                 ctx.stat('%s_public_%s' % (lang, 'error_' + g['error'] if isinstance(g, dict) and 'error' in g else 'ok'))
                 if c['lit_cols'] and isinstance(g, dict) and g.get('rows'):
                     ctx.stat('%s_literal_reaches_output' % lang)
-        ctx.sample({'lang': lang, 'canonical': cs[0]['canon_q'], 'spelling': cs[1]['q'], 'result': got[1]})
+        ctx.sample_safe(lambda: {'lang': lang, 'canonical': cs[0]['canon_q'], 'spelling': cs[1]['q'], 'result': got[1]})
 
     # ---- (ii) model tie
     mres = model_internal(internal)
@@ -765,7 +765,7 @@ def run(ctx):
             if m['literals']:
                 ctx.stat('%s_with_literals' % lang)
         ctx.cross_check_vm(503, args, raw, n=40 if ctx.tier == 'quick' else 200)
-        ctx.sample({'lang': lang, 'query': cs[1]['q'], 'model': dec[1]['actions'], 'implementation': got[1].get('actions') if isinstance(got[1], dict) else got[1]})
+        ctx.sample_safe(lambda: {'lang': lang, 'query': cs[1]['q'], 'model': dec[1]['actions'], 'implementation': got[1].get('actions') if isinstance(got[1], dict) else got[1]})
 
     # ---- single-character classes: whitespace (strip / trim), (?i) folding, '.'
     for lang, code in LANGS:
